@@ -213,6 +213,12 @@ def random_line(rng):
         tail += '_'                                          # a final underscore stands for itself
     fmt += tail
     k = rng.randint(1, 2 * nf + 1)
+    # keep the whole text on one console line (no wrapping at column 80): generous estimate of its length
+    percycle = len(fmt) + 5 * sum(1 for f in fields if f[1] == '&')     # upper bound of the text of one pass
+    while k > 1 and -(-k // nf) * percycle > 76:
+        k -= 1
+    if -(-k // nf) * percycle > 76:
+        return random_line(rng)
     src, vals = [], []
     for j in range(k):
         fld = fields[j % nf]
